@@ -408,3 +408,53 @@ example : readStream [lit "ab", lit "c"] .closed 10 [lit "226 done\r\n"]
     = .complete (lit "abc") ⟨some 226, some (lit "done")⟩ := by decide
 
 end Wpull.Ftp
+
+namespace Wpull.Ftp
+
+/-! ## Several fetches on one client -/
+
+theorem runFetches_own_aux (fs : List Fetch) (h : ∀ f ∈ fs, f.Settled) (pooled : Option (List Nat))
+    (hp : pooled = none ∨ pooled = some []) :
+    ∀ p ∈ (runFetches pooled fs).zip fs, p.1.2 = p.2.replies.take p.2.read := by
+  induction fs generalizing pooled with
+  | nil => intro p hp'; simp [runFetches] at hp'
+  | cons f fs ih =>
+    intro p hp'
+    have hw : pooled.getD [] ++ f.replies = f.replies := by
+      rcases hp with rfl | rfl <;> simp
+    simp only [runFetches, List.zip_cons_cons, List.mem_cons] at hp'
+    rcases hp' with rfl | hp'
+    · simp [hw]
+    · refine ih (fun g hg => h g (List.mem_cons_of_mem _ hg)) _ ?_ p hp'
+      unfold leave
+      cases he : f.exit with
+      | raised => left; rfl
+      | normal =>
+        right
+        have := h f (List.mem_cons_self) he
+        simp [hw, List.drop_eq_nil_of_le this]
+
+/-- **C17 (d)** On one client, whatever sequence of fetches is made and however each of them ends (completed, or
+left by any exception at any point of its conversation): every session reads only replies to its OWN commands —
+the first reply it reads answers its first command.  (Sessions left without an exception have read all their
+replies; sessions left by an exception lose their control connection.) -/
+theorem each_fetch_reads_its_own_replies (fs : List Fetch) (h : ∀ f ∈ fs, f.Settled) :
+    ∀ p ∈ (runFetches none fs).zip fs, p.1.2 = p.2.replies.take p.2.read :=
+  runFetches_own_aux fs h none (Or.inl rfl)
+
+/-- and the next fetch opens a fresh control connection exactly when the previous one was left by an exception -/
+theorem fresh_iff_previous_raised (f g : Fetch) (fs : List Fetch) (pooled : Option (List Nat)) :
+    ((runFetches pooled (f :: g :: fs))[1]?).map Prod.fst = some (decide (f.exit = .raised)) := by
+  simp only [runFetches, leave]
+  cases f.exit <;> simp
+
+/-- why both halves are needed: a session that is left WITHOUT an exception while the server still owes it a reply
+(150 read, 226 not yet) hands that reply to the next session as the answer to its first command -/
+theorem normal_exit_with_reply_owed_counterexample :
+    runFetches none [⟨[150, 226], 1, .normal⟩, ⟨[213, 200], 2, .normal⟩] = [(true, [150]), (false, [226, 213])] := by
+  decide
+
+example : (⟨[150, 226], 2, .normal⟩ : Fetch).Settled ∧ (⟨[150, 226], 1, .raised⟩ : Fetch).Settled := by
+  constructor <;> simp [Fetch.Settled]
+
+end Wpull.Ftp
